@@ -54,7 +54,11 @@ def run_tlc(spec, cfg=None, cfg_text=None, workdir=None, workers=16, mode="check
     if cfg_text is None:
         cfg_text = open(os.path.join(SPECS, "cfg", cfg)).read()
     open(cfgpath, "w").write(cfg_text)
-    jopts = ["-XX:+UseParallelGC", "-Xmx" + heap]
+    # TLC unpacks its standard modules into java.io.tmpdir (/tmp/tlc-*) and leaves them behind when it is killed:
+    # keep them inside the work directory, which is removed with it
+    jtmp = os.path.join(workdir, "jtmp")
+    os.makedirs(jtmp, exist_ok=True)
+    jopts = ["-XX:+UseParallelGC", "-Xmx" + heap, "-Djava.io.tmpdir=" + jtmp]
     if deque:
         jopts.append("-Dtlc2.tool.queue.IStateQueue=StateDeque")
     cmd = ["java"] + jopts + ["-cp", JAR, "tlc2.TLC", "-workers", str(workers), "-metadir",
@@ -82,7 +86,10 @@ def run_tlc(spec, cfg=None, cfg_text=None, workdir=None, workers=16, mode="check
             p = subprocess.run(cmd, cwd=workdir, env=e, stdout=subprocess.PIPE, stderr=subprocess.STDOUT,
                                timeout=timeout, text=True)
         except subprocess.TimeoutExpired:
+            # subprocess.run has killed the JVM; `workdir` contains our own pid, so this can only hit our own stragglers
             subprocess.run(["pkill", "-f", workdir], check=False)
+            if not os.environ.get("VERIF_KEEP_WORK"):
+                cleanup(workdir)
             raise MachineryError("TLC timeout after %ss: %s" % (timeout, res.cmd))
         # killed from outside (another process cleaning up "all TLC" with pkill): run again
         if p.returncode in (143, 137, 130, -15, -9) and "Finished in" not in p.stdout:
@@ -90,6 +97,11 @@ def run_tlc(spec, cfg=None, cfg_text=None, workdir=None, workers=16, mode="check
             time.sleep(1 + attempt)
             continue
         break
+    else:
+        tail = "\n".join(p.stdout.splitlines()[-10:])
+        if not os.environ.get("VERIF_KEEP_WORK"):
+            cleanup(workdir)
+        raise MachineryError("TLC was killed from outside three times (rc=%s): %s\n%s" % (p.returncode, res.cmd, tail))
     res.wall_s = time.time() - t0
     out = p.stdout
     res.stdout = out
@@ -105,21 +117,32 @@ def run_tlc(spec, cfg=None, cfg_text=None, workdir=None, workers=16, mode="check
                 res.cases.append(json.loads(json.loads('"' + txt + '"')))
             except Exception as ex:
                 raise MachineryError("cannot parse emitted case: %r (%s)" % (txt[:200], ex))
-    m = re.search(r'(\d+) states generated, (\d+) distinct states found', out)
-    if m:
-        res.generated, res.distinct = int(m.group(1)), int(m.group(2))
+    ms = re.findall(r'(\d+) states generated, (\d+) distinct states found', out)
+    if ms:
+        res.generated, res.distinct = int(ms[-1][0]), int(ms[-1][1])      # the last line is the final count
+    elif mode == "simulate":
+        # simulation mode reports "The number of states generated: N" (no fingerprint set, hence no distinct count);
+        # every generated state is a state of some behaviour that was checked against the invariants
+        m = re.findall(r'The number of states generated: (\d+)', out)
+        if m:
+            res.generated = res.distinct = int(m[-1])
+        mt = re.findall(r'Generated (\d+) traces?', out) or re.findall(r'(\d+) traces? generated', out)
+        res.sim_traces = int(mt[-1]) if mt else None
     m = re.search(r'depth of the complete state graph search is (\d+)', out)
     if m:
         res.depth = int(m.group(1))
     if coverage:
         # lines like: <Action line 12, col 1 to line 14, col 30 of module X>: 12:345
-        for cm in re.finditer(r'<(\w+) line \d+, col \d+ to line \d+, col \d+ of module (\w+)>: (\d+):(\d+)', out):
-            key = cm.group(1)
-            d, t = int(cm.group(3)), int(cm.group(4))
+        # a disjunct of Next that is not an operator application is reported under the name of the enclosing definition
+        # with its own location appended: "<Next line 112, ... of module M (113 12 113 111)>: 8:62"  ->  key "Next@113"
+        for cm in re.finditer(r'<(\w+) line \d+, col \d+ to line \d+, col \d+ of module (\w+)(?: \((\d+) \d+ \d+ \d+\))?>: (\d+):(\d+)', out):
+            key = cm.group(1) if cm.group(3) is None else "%s@%s" % (cm.group(1), cm.group(3))
+            d, t = int(cm.group(4)), int(cm.group(5))
             od, ot = res.coverage.get(key, (0, 0))
             res.coverage[key] = (max(od, d), max(ot, t))
     viol = re.search(r'Error: Invariant (\S+) is violated', out) or \
         re.search(r'Error: Action property (\S+) is violated', out) or \
+        re.search(r'Error: Temporal property (\S+) was violated', out) or \
         re.search(r'Error: Temporal properties were violated', out)
     if viol:
         res.violated = viol.group(1) if viol.groups() else "temporal"
@@ -135,11 +158,11 @@ def run_tlc(spec, cfg=None, cfg_text=None, workdir=None, workers=16, mode="check
     res.errors = hard_errors
     if res.violated or res.postcondition_failed:
         res.ok = False
-        if not expect_violation and res.violated is None and not res.postcondition_failed:
-            raise MachineryError("TLC error: " + "\n".join(hard_errors[:5]))
         return res
     if p.returncode != 0 or not finished or hard_errors:
         tail = "\n".join(out.splitlines()[-40:])
+        if not os.environ.get("VERIF_KEEP_WORK"):
+            cleanup(workdir)
         raise MachineryError("TLC failed (rc=%s): %s\n%s" % (p.returncode, res.cmd, tail))
     res.ok = True
     return res
